@@ -61,6 +61,12 @@ func sanitizeSelectionSet(ctx *PlanningContext, selectionSet ast.SelectionSet, i
 			childSelectionSet, sf := sanitizeSelectionSet(ctx, s.SelectionSet, insertionPoint)
 			scrubFields.Merge(sf)
 
+			// the fragment is unfolded into its parent or re-grouped per service below:
+			// its directives go with the selections it contributes
+			if len(s.Directives) > 0 {
+				pushDirectivesDown(childSelectionSet, s.Directives)
+			}
+
 			var addedFields []string
 			childSelectionSet, addedFields = addScrubFieldsToSelectionSet(ctx, childSelectionSet, s.TypeCondition)
 			for _, f := range addedFields {
@@ -82,6 +88,29 @@ func sanitizeSelectionSet(ctx *PlanningContext, selectionSet ast.SelectionSet, i
 	}
 
 	return result, scrubFields
+}
+
+// pushDirectivesDown adds the directives of an unfolded fragment to each of its selections,
+// unless the selection already carries a directive of that name
+func pushDirectivesDown(selectionSet ast.SelectionSet, directives ast.DirectiveList) {
+	for _, sel := range selectionSet {
+		var own *ast.DirectiveList
+		switch sel := sel.(type) {
+		case *ast.Field:
+			own = &sel.Directives
+		case *ast.InlineFragment:
+			own = &sel.Directives
+		default:
+			continue
+		}
+		merged := append(ast.DirectiveList{}, *own...)
+		for _, d := range directives {
+			if own.ForName(d.Name) == nil {
+				merged = append(merged, d)
+			}
+		}
+		*own = merged
+	}
 }
 
 func sanitizeUnionInlineFragment(ctx *PlanningContext, selectionSet ast.SelectionSet, selection *ast.InlineFragment) ast.SelectionSet {
